@@ -8,6 +8,14 @@ from .suites_chain import cobs
 from .values import cspec
 
 
+def drop_run_ordinals(v):
+    if isinstance(v, list):
+        return [drop_run_ordinals(x) for x in v]
+    if isinstance(v, dict):
+        return {k: drop_run_ordinals(x) for k, x in v.items() if k != 'run'}
+    return v
+
+
 def cout(o):
     out = o['out']
     if out == 'error':
@@ -27,6 +35,9 @@ def cout(o):
         v = f'(VBool {cbool(body["bool"])})'
     elif 'records' in body:
         ri, lg = body['records']
+        # the ordinal of the run is compared by the oracle only: within one Chain.force(recompute=True) the order of
+        # recomputation (a set iteration) is arbitrary, so model and implementation may number those runs differently
+        ri = drop_run_ordinals(ri)
         v = ('(VList [' + (cspec(ri) if ri is not None else 'VNone') + '; ' +
              ('VNone' if lg is None else '(VList ' + clist([f'(VStr {cstr(l)})' for l in lg]) + ')') + '])')
     elif 'flags' in body:
@@ -397,9 +408,16 @@ class Histories(Suite):
     prelude = '''
 Fixpoint vl_eqb (a b : list value) : bool :=
   match a, b with [], [] => true | x :: a', y :: b' => value_eqb x y && vl_eqb a' b' | _, _ => false end.
+Fixpoint drop_run (v : value) : value :=
+  match v with
+  | VList l => VList (map drop_run l)
+  | VDict kvs => VDict (filter (fun kv => negb (str_eqb (fst kv) (lit "run")))
+                               (map (fun kv => (fst kv, drop_run (snd kv))) kvs))
+  | _ => v
+  end.
 Definition hist_model (c : World.world * list op) : list value :=
   let '(wd, ops) := c in
-  run_history sha_key wd (provenance_run (classes_of_world wd)) init ops.
+  map drop_run (run_history sha_key wd (provenance_run (classes_of_world wd)) init ops).
 '''
     eqb = 'vl_eqb'
     model = 'hist_model'
